@@ -31,13 +31,13 @@ RULE = ("generated meshes (point clouds, polylines with isolated vertices, tri/q
         "classes x config switches x ignore_elements x attribute plans, each saved to all 7 formats, re-read by mouette and by the "
         "reference reader, and re-written by the reference writer in a random dialect; non-trivial = the mesh has >= 2 element kinds "
         "or >= 1 attribute; distinct = distinct (coordinates, elements, attribute plan, switches) hash")
-REQUIRED = {"roundtrip": 5000, "written": 4000, "foreign": 4000, "attributes": 200,
-            "roundtrip/obj": 600, "roundtrip/mesh": 600, "roundtrip/geogram_ascii": 600, "roundtrip/off": 600,
-            "roundtrip/tet": 600, "roundtrip/xyz": 600, "roundtrip/stl": 200,
-            "written/obj": 500, "written/mesh": 500, "written/geogram_ascii": 500, "written/off": 500, "written/tet": 500,
-            "written/xyz": 500, "written/stl": 200,
-            "foreign/obj": 600, "foreign/mesh": 600, "foreign/geogram_ascii": 600, "foreign/off": 600, "foreign/tet": 600,
-            "foreign/xyz": 600, "foreign/stl": 200}
+REQUIRED = {"roundtrip": 12000, "written": 10000, "foreign": 12000, "attributes": 600,
+            "roundtrip/obj": 1800, "roundtrip/mesh": 1800, "roundtrip/geogram_ascii": 1800, "roundtrip/off": 1800,
+            "roundtrip/tet": 1800, "roundtrip/xyz": 1800, "roundtrip/stl": 600,
+            "written/obj": 1500, "written/mesh": 1500, "written/geogram_ascii": 1500, "written/off": 1500, "written/tet": 1500,
+            "written/xyz": 1500, "written/stl": 600,
+            "foreign/obj": 1800, "foreign/mesh": 1800, "foreign/geogram_ascii": 1800, "foreign/off": 1800, "foreign/tet": 1800,
+            "foreign/xyz": 1800, "foreign/stl": 800}
 CASE_TIMEOUT = {"quick": 120.0, "thorough": 300.0}
 ASSUMPTIONS = ["element kinds: edges, triangles/quads/polygons, tetrahedra and hexahedra (VTK vertex order); no invalid or repeated elements",
                "coordinates are finite doubles; for stl they are limited to the float32 range and compared as float32(coordinate)",
@@ -159,7 +159,7 @@ KINDS = ["pointcloud", "polyline", "surface:tri", "surface:poly", "surface:any",
 def cases(seed, tier):
     rng = random.Random(seed * 104729 + 4)
     out = _anchors()
-    n = 1001 if tier == "quick" else 40000
+    n = 800 if tier == "quick" else 40000
     sizes = [1, 2, 3] if tier == "quick" else [1, 2, 3, 4, 6, 8]
     for i in range(n):
         kind = KINDS[i % len(KINDS)]
